@@ -10,6 +10,7 @@ import (
 	"bytes"
 	"fmt"
 	"io"
+	"math/rand"
 	"net"
 	"net/http"
 	"net/http/httptest"
@@ -444,8 +445,9 @@ func (l *Loop) writeStatic() error {
 }
 
 func freePort() int {
-	for try := 0; try < 20; try++ {
-		p := 30000 + (os.Getpid()%300)*20 + try
+	// random port in 20000-29999 (below the ephemeral range, above the sidecars' 10000-19999), test-bound first
+	for try := 0; try < 40; try++ {
+		p := 20000 + portRand.Intn(10000)
 		ln, err := net.Listen("tcp", fmt.Sprintf("127.0.0.1:%d", p))
 		if err == nil {
 			ln.Close()
@@ -454,6 +456,8 @@ func freePort() int {
 	}
 	return 0
 }
+
+var portRand = rand.New(rand.NewSource(time.Now().UnixNano() ^ int64(os.Getpid())<<20))
 
 func (l *Loop) initTimeout() time.Duration {
 	if d, err := time.ParseDuration(l.Spec.InitTimeout); err == nil && d > 0 {
@@ -638,7 +642,26 @@ func (l *Loop) Reconfigure(add map[int][2]int, remove []int) error {
 	if err := l.writeConfig(); err != nil {
 		return err
 	}
-	resp, err := http.Post(l.coordAPI+"/-/reload", "application/json", nil)
+	// the API of the coordinator binary starts after its start-up wait; a refused connection is retried for a while
+	// (cycles counted at the shards say nothing about the API), and if the API never comes up (somebody else got the
+	// port between the harness' test and the binary's bind) the coordinator is started again on another port
+	var resp *http.Response
+	var err error
+	for attempt := 0; attempt < 2 && resp == nil; attempt++ {
+		for try := 0; try < 150; try++ {
+			resp, err = http.Post(l.coordAPI+"/-/reload", "application/json", nil)
+			if err == nil || !strings.Contains(err.Error(), "connection refused") {
+				break
+			}
+			time.Sleep(200 * time.Millisecond)
+		}
+		if err != nil && strings.Contains(err.Error(), "connection refused") && attempt == 0 {
+			l.stopCoordinator()
+			if err2 := l.startCoordinator(); err2 != nil {
+				return err2
+			}
+		}
+	}
 	if err != nil {
 		return err
 	}
